@@ -10,8 +10,8 @@ package interp
 // continues the source evaluated before it, so that the imports of that source stay visible; a named
 // piece switches to its own name; the very first unnamed piece gets DefaultSourceName.  The parser
 // is given exactly that name.
-//@ trusted func (interp *Interpreter) parse(src, name, inc) (n, err)
-//@   requires [C11] parsed-under-current-source-name: name == interp.name
+// (the contract of parse is in zz_verif_contracts_c17.go; its precondition
+// parsed-under-current-source-name is the obligation of this property at the call site below)
 //@ func (interp *Interpreter) compileSrc(src, name, inc) (p, err)
 //@   props C11
 //@   opt safety = off
